@@ -281,7 +281,7 @@ func (w *World) Apply(op Op) (v *Violation) {
 	}()
 	t := w.Tree
 	switch op.Kind {
-	case "reopen", "lvfo", "dvf", "hop":
+	case "reopen", "lvfo", "dvf", "hop", "lvfo_invalid":
 		w.unpinAll()
 	}
 	switch op.Kind {
@@ -358,6 +358,19 @@ func (w *World) Apply(op Op) (v *Violation) {
 		if w.Obs.Fresh {
 			return w.checkFresh("lvfo")
 		}
+	case "lvfo_invalid":
+		// a target outside the retained range: must fail, change nothing and leave the tree usable
+		before := w.rawDump()
+		if err := t.LoadVersionForOverwriting(op.N); err == nil {
+			return w.viol("lvfo.invalid_accepted", "LoadVersionForOverwriting(%d) succeeded, retained %v", op.N, w.Retained())
+		}
+		if !eqDump(before, w.rawDump()) {
+			return w.viol("lvfo.invalid_effect", "failed LoadVersionForOverwriting(%d) changed the store (retained %v)", op.N, w.Retained())
+		}
+		w.Labels["lvfo_invalid"] = true
+		if w.Obs.Fresh {
+			return w.checkFresh("lvfo_invalid")
+		}
 	case "dvf":
 		n := op.N
 		if n < w.Latest && w.Cfg.SkipFast && w.EverFast {
@@ -369,6 +382,7 @@ func (w *World) Apply(op Op) (v *Violation) {
 		if n < w.Latest {
 			w.Labels["rollback_versions"] = true
 		}
+		oldLatest := w.Latest
 		for v := n + 1; v <= w.Latest; v++ {
 			delete(w.Vers, v)
 		}
@@ -376,6 +390,21 @@ func (w *World) Apply(op Op) (v *Violation) {
 		if w.LegacyLatest > n {
 			w.LegacyLatest = n
 			w.Labels["rollback_into_legacy"] = true
+		}
+		if w.Obs.Versions || w.Obs.Reads {
+			// before the reload: the version range API must already agree with the new range
+			for v := n + 1; v <= oldLatest; v++ {
+				if t.VersionExists(v) {
+					return w.viol("dvf.versionexists", "after DeleteVersionsFrom(%d) VersionExists(%d) is still true", n+1, v)
+				}
+			}
+			var want []int
+			for _, v := range w.Retained() {
+				want = append(want, int(v))
+			}
+			if av := t.AvailableVersions(); fmt.Sprint(av) != fmt.Sprint(want) && !(len(av) == 0 && len(want) == 0) {
+				return w.viol("dvf.available", "after DeleteVersionsFrom(%d) AvailableVersions=%v want %v", n+1, av, want)
+			}
 		}
 		if op.Flag {
 			_ = w.Tree.Close()
@@ -1424,5 +1453,36 @@ func (w *World) checkLoadEach() *Violation {
 			}
 		}
 	}
+	return nil
+}
+
+// checkUnloadedHandle (C07, C14): a handle that was constructed but never loaded can serve GetImmutable(v) reads; with the
+// index setting of the live configuration every answer must still equal the model (fast path guards must not depend on a
+// latest version this handle never discovered).
+func (w *World) checkUnloadedHandle() *Violation {
+	if w.Backend == "level" || w.Latest == 0 {
+		return nil
+	}
+	tr := iavl.NewMutableTree(w.DB, 0, w.Cfg.SkipFast, iavl.NewNopLogger())
+	for _, v := range w.Retained() {
+		vs := w.Vers[v]
+		it, err := tr.GetImmutable(v)
+		if err != nil {
+			return w.viol("unloaded.getimmutable", "unloaded handle: GetImmutable(%d): %v", v, err)
+		}
+		present, absent := probeKeys(vs.KV)
+		for _, k := range present {
+			g, err := it.Get([]byte(k))
+			if err != nil || !bytes.Equal(g, vs.KV[k]) || g == nil {
+				return w.viol("unloaded.get", "unloaded handle: version %d Get(%q)=%q,nil=%v,%v want %q", v, k, g, g == nil, err, vs.KV[k])
+			}
+		}
+		for _, k := range absent {
+			if g, err := it.Get([]byte(k)); err != nil || g != nil {
+				return w.viol("unloaded.get_absent", "unloaded handle: version %d Get(absent %q)=%q,%v", v, k, g, err)
+			}
+		}
+	}
+	w.Labels["unloaded_handle_reads"] = true
 	return nil
 }
